@@ -28,7 +28,7 @@ ASSUMPTIONS = [
     "the CUDA kernel cannot be executed here (no device); it received the same one-line cone repair as its CPU twins and is not exercised",
     "points are float64 arrays, normals unit length (as produced by the pipeline's surface extraction)",
 ]
-BUDGET = {"quick": {"examples": 500, "seconds": 85}, "thorough": {"examples": 2000, "seconds": 540}}
+BUDGET = {"quick": {"examples": 1000, "seconds": 85}, "thorough": {"examples": 2000, "seconds": 540}}
 
 
 @st.composite
